@@ -341,6 +341,9 @@ async fn acquire_authority_lock_with_recovery(
                         return Err(err);
                     }
                     Ok(None) => {
+                        // No lock at the path any more: a lock seen unreadable earlier is gone, the next
+                        // one (a starter may create it before our next try_acquire) has its own grace period.
+                        lock_invalid_since = None;
                         if std::time::Instant::now() >= deadline {
                             return Err(err);
                         }
